@@ -9,6 +9,7 @@ import sys
 from vlib import accept, diff, lib, shrink
 from vlib.gen import mutate as M
 from vlib.gen import queries as Q
+from vlib.runner import h64
 from vlib.hyp import drive, rng
 
 PROPERTY = "C13"
@@ -56,9 +57,15 @@ def _alarm(signum, frame):
     raise Budget()
 
 
-def run_case(q, extra_doc=None):
+def run_case(q, extra_doc=None, inline=False):
     """Return None or a failure dict."""
-    status, got = lib.compile_(q)
+    if inline:
+        # one-liner style: nothing but the query keeps its environment alive, and a collection runs in between
+        import gc
+        status, got = lib.compile_(q, lib.JSONPathEnvironment())
+        gc.collect()
+    else:
+        status, got = lib.compile_(q)
     if status == "err":
         if got["type"] == "Budget":
             raise Budget()
@@ -81,7 +88,17 @@ def run_case(q, extra_doc=None):
         return {"bucket": f"str-of-query:{info['type']}:{info['frame']}", "stage": "str",
                 "what": f"str(compile({q[:120]!r})) raised {info['type']}: {info['str']}", "expected": "a string", "observed": info}
     for v in ([extra_doc] if extra_doc is not None else BATTERY):
-        st, r = lib.find(cq, v)
+        if inline:
+            try:
+                it = lib.JSONPathEnvironment().finditer(q, v)
+                gc.collect()
+                st, r = "ok", list(it)
+            except Exception as e:  # noqa: BLE001
+                st, r = "err", lib.exc_info(e)
+            if st == "ok":
+                st, r = lib.find(cq, v)
+        else:
+            st, r = lib.find(cq, v)
         if st == "err":
             if r["type"] == "Budget":
                 raise Budget()
@@ -103,7 +120,7 @@ def examine(case):
         for attempt in (1, 2):
             signal.setitimer(signal.ITIMER_VIRTUAL, CPU_BUDGET)
             try:
-                return run_case(q, case.get("doc"))
+                return run_case(q, case.get("doc"), case.get("inline", False))
             except Budget:
                 if attempt == 2:
                     return {"bucket": "suspected-hang", "what": f"compile/find of {q[:120]!r} exceeded {CPU_BUDGET}s of CPU twice",
@@ -219,8 +236,12 @@ def plan(tier, seed):
     return specs
 
 
-def record(shard, q, origin):
+def record(shard, q, origin, inline=False):
     case = {"q": q}
+    if inline:
+        case["inline"] = True
+        case["doc"] = BATTERY[h64(q) % len(BATTERY)]
+        origin = origin + "+environment-dropped"
     stage = "rejected"
     st, got = lib.compile_(q)
     if st == "ok":
@@ -239,6 +260,9 @@ def run_shard(spec, shard):
     def body(r):
         ast, text, used = accept.base_query(r, shard)
         record(shard, text, "valid")
+        if r.random() < 0.15:
+            record(shard, text, "valid", inline=True)
+            record(shard, call_shape(r), "call-shape", inline=True)
         for _ in range(2):
             m, kinds = M.mutant(text, r)
             record(shard, m, "mutant")
